@@ -46,4 +46,34 @@ TEXTS = {
         "note": "trusted: Lean kernel + audited axioms (3 examples use decide +kernel: kernel evaluation, no axiom); hand-written models of path.rs/altroot.rs/overlay.rs tied by the fault stream; functional correctness of the fallback routes is C01-C11, not C20",
         "technique": "Lean 4 proof (faithfulness calculus) over hand-written model + exhaustive fault-position enumeration against the real code",
     },
+    "C03": {
+        "level": "Lean 4 theorems on the flat in-memory map (where nothing structural keeps it a tree): the invariant 'root is a directory, every other key has a directory parent' is preserved by every path-layer primitive run through the generic VfsPath layer over the memory leaf — create_dir, write session, append session, remove_file, remove_dir (root aside), open_file, the three time setters, observers — for EVERY path string and with no type restriction, successful or failed; hence by every finite history from the fresh filesystem; every entry of such a map is listed by its parent and reachable from the root through listings. The link 'VPath operation on the memory leaf = pure function on the map' is itself proved (MemRun). PARTIAL: adapters and PhysicalFS are covered by the tree stream's per-step predicate (orphans, reachability by walk_dir) on 13 configurations with wrong-type calls, not by a theorem; create_dir_all by the stream.",
+        "design_ref": "DESIGN.md §6 C03",
+        "note": "trusted: Lean kernel + audited axioms; model of memory.rs and path.rs tied by the tree stream; the host file system keeps PhysicalFS a tree (assumption). Known finding O3 (overlay remove_file on a lower-only directory) is reported as KNOWN-FINDING from its stored witness.",
+        "technique": "Lean 4 proof (invariant by induction over histories) over hand-written model + differential correspondence check",
+    },
+    "C05": {
+        "level": "Lean 4 theorems on the in-memory map: read_dir's prefix scan lists exactly the bare names n such that p/n is a key (so sibling names that are prefixes of each other cannot leak), never a name twice; a path exists iff its parent lists its name exactly once; directory iff listable; file iff readable (the handle holds its bytes); metadata iff exists; absent paths fail every observer with not-found; the overlay's merge of layer listings is duplicate-free and exact. PARTIAL: walk_dir (each descendant once, directories first) and the adapters are decided by the tree stream's predicates on the real code on every step, not by a theorem.",
+        "design_ref": "DESIGN.md §6 C05",
+        "note": "trusted: as C03. Known finding O3 is reported from its witness.",
+        "technique": "Lean 4 proof over hand-written model + differential correspondence check",
+    },
+    "C12": {
+        "level": "Lean 4 theorems for an arbitrary backend record (its own error labels are universally quantified): every error of a single-path VfsPath operation carries exactly the caller's path (never the placeholder), create_dir_all a directory prefix of it, remove_dir_all the path or a descendant, copy_file/move_file/copy_dir/move_dir the source path; create_dir/create_file the path or its parent when the backend's exists does not fail (proved for the leaves, embedded, altroot; shown necessary by a witness). Class rules: trailing-slash join is InvalidPath, unimplemented optional operations NotSupported, missing entries FileNotFound and occupied create_dir FileExists/DirectoryExists on both leaf models. Tied to the code by the tree stream comparing class AND path of every failing call with the model, plus the path-membership predicate on the real errors, on 13 configurations.",
+        "design_ref": "DESIGN.md §6 C12",
+        "note": "trusted: Lean kernel + audited axioms; models tied by the tree stream; error message texts are not modelled",
+        "technique": "Lean 4 proof over hand-written model + differential correspondence check",
+    },
+    "C18": {
+        "level": "Lean 4 theorems for EVERY embedded file list: EmbeddedFS::new's directory map has exactly the directory prefixes as keys and exactly the next path components as children (sound, complete, duplicate-free); every file is visible with its length and bytes, every implied directory is a directory of length 0 that lists and cannot be opened, the root exists and behaves like any other directory, everything else is absent for all observers; all 13 mutators return NotSupported and leave the world unchanged; observers never panic. Tied to the code by the embed stream: exhaustive over a path set derived from a fixture folder, EmbeddedFS vs the model (CORR) and vs PhysicalFS on the same folder (PROP).",
+        "design_ref": "DESIGN.md §6 C18",
+        "note": "trusted: Lean kernel + audited axioms; rust-embed's iter/get provide the file list (assumption); model of embedded.rs tied by the embed stream",
+        "technique": "Lean 4 proof over hand-written model + exhaustive differential check on a fixture",
+    },
+    "C19": {
+        "level": "Lean 4 theorems on the in-memory model: each supported setter makes metadata report exactly the value set and leaves the other two timestamps, the type, the length, the bytes and every other entry unchanged; on an absent path it is not-found and nothing changes; setters of distinct fields commute; flush/append keep creation and access time, create_file resets them; the physical model refuses creation time as NotSupported without change; overlay setters are the setters on write_path, altroot setters on the translated path, embedded NotSupported. Tied to the code by the tree stream with time operations on 9 configurations (metadata immediately before/after every setter; timestamps vs model on memory-backed configurations).",
+        "design_ref": "DESIGN.md §6 C19",
+        "note": "trusted: Lean kernel + audited axioms; the host stamps physical timestamps (compared by predicate only). Known finding O7 (overlay setters on lower-only entries report not-found) is reported from its witness.",
+        "technique": "Lean 4 proof over hand-written model + differential correspondence check",
+    },
 }
